@@ -1205,7 +1205,51 @@ pub fn run_replaytext(words: &[&str]) -> String {
     }
 }
 
+/// timelimit <kind> <seed> <iters> <limit_ms> <sleep_ms>: a run with `max_time` set whose body takes `sleep_ms` of real
+/// time.  Prints the returned count, the number of body invocations and, for every invocation, the elapsed
+/// milliseconds (since just before `Runner::run`) at its start and end, then the elapsed time at return.
+pub fn run_timelimit(words: &[&str]) -> String {
+    let [_, kind, seed, iters, limit, sleep] = words else {
+        return "ERR bad case".to_string();
+    };
+    let seed: u64 = seed.parse().unwrap();
+    let iters: usize = iters.parse().unwrap();
+    let limit: u64 = limit.parse().unwrap();
+    let sleep: u64 = sleep.parse().unwrap();
+    let mut config = Config::new();
+    config.failure_persistence = FailurePersistence::None;
+    config.max_time = Some(std::time::Duration::from_millis(limit));
+    let times = Arc::new(std::sync::Mutex::new(Vec::<(u128, u128)>::new()));
+    let t2 = times.clone();
+    let start = std::time::Instant::now();
+    let body = move || {
+        let a = start.elapsed().as_micros();
+        let h = shuttle::thread::spawn(|| shuttle::thread::yield_now());
+        shuttle::thread::yield_now();
+        h.join().unwrap();
+        std::thread::sleep(std::time::Duration::from_millis(sleep));
+        let b = start.elapsed().as_micros();
+        t2.lock().unwrap().push((a, b));
+    };
+    let res = catch_unwind(AssertUnwindSafe(|| match *kind {
+        "random" => Runner::new(shuttle_schedulers::RandomScheduler::new_from_seed(seed, iters), config).run(body),
+        "pct" => Runner::new(shuttle_schedulers::PctScheduler::new_from_seed(seed, 2, iters), config).run(body),
+        "dfs" => Runner::new(shuttle_schedulers::DfsScheduler::new(Some(iters), false), config).run(body),
+        "rr" => Runner::new(shuttle_schedulers::RoundRobinScheduler::new(iters), config).run(body),
+        _ => Runner::new(shuttle_schedulers::UrwRandomScheduler::new_from_seed(seed, iters), config).run(body),
+    }));
+    let end = start.elapsed().as_micros();
+    let ts = times.lock().unwrap().iter().map(|(a, b)| format!("{}-{}", a, b)).collect::<Vec<_>>().join(",");
+    match res {
+        Ok(n) => format!("TL N={} B={} times={} end={}", n, times.lock().unwrap().len(), if ts.is_empty() { "-".to_string() } else { ts }, end),
+        Err(p) => format!("TL FAIL {}", classify(p)),
+    }
+}
+
 pub fn run(words: &[&str]) -> String {
+    if words.first() == Some(&"timelimit") {
+        return run_timelimit(words);
+    }
     if words.first() == Some(&"replaytext") {
         return run_replaytext(words);
     }
